@@ -68,7 +68,9 @@ Qed.
 
 (* every forge-std overload of the specification is bound in the table *)
 Definition descr_bound (d : descr) : bool :=
-  existsb (fun e => N.eqb (fst e) (selector_of_sig (render d)) && String.eqb (snd e) (render d)) assert_table.
+  let sg := render d in
+  let sl := selector_of_sig sg in   (* hashed once per description *)
+  existsb (fun e => N.eqb (fst e) sl && String.eqb (snd e) sg) assert_table.
 Lemma all_descrs_bound_b : forallb descr_bound all_descrs = true.
 Proof. vm_compute. reflexivity. Qed.
 Lemma all_descrs_bound :
@@ -262,3 +264,18 @@ Qed.
 
 Lemma gfs_iff : forall c, is_global_fail_set c = true <-> has_fail c.
 Proof. intros c. split; [exact (gfs_sound c) | exact (gfs_complete c)]. Qed.
+
+(* the continuing path is NOT strengthened by the asserted condition (halmos leaves the path
+   as it was): an input violating the condition also continues -- it is reported on the failing
+   branch as well, so no failure is hidden (C13_fail_exact), but the state after a vm.assert*
+   over-approximates Foundry's, where execution stops at the first failed assertion *)
+Lemma continue_overapprox :
+  exists (check : path bool -> cond bool -> sat_result) (e : exec bool) (c : cond bool) (i : bool),
+    (forall p c', check p c' = Unsat -> forall j, sat_path bool p j = true -> c' j = false) /\
+    c i = false /\
+    existsb (fun o => continues_with bool o i) (assert_step bool check e c) = true /\
+    existsb (fun o => reported_failure bool o i) (assert_step bool check e c) = true.
+Proof.
+  exists (fun _ _ => Unknown), (mkExec bool [] [Ctx ENone []]), (fun i => i), false.
+  split; [discriminate|]. vm_compute. auto.
+Qed.
